@@ -169,4 +169,10 @@ theorem tie_unreserve_rsv_model (c : Cache) (listed : Option RObj) (pu n : Nat) 
   refine ⟨?_, fun _ => rfl, rfl⟩
   cases listed <;> simp [unreserveRsvM, unreserveRsvG]
 
+/-- ReservationInfo.IsUnschedulable = Spec.Unschedulable OR IsTerminating (DeletionTimestamp set): a terminating
+    reservation is skipped by the matching unless the pod names it; the cycle model passes `r.term` -/
+theorem tie_terminating_unschedulable :
+    C05.unschedulableDef = "(_ || IsTerminating())" ∧
+    C05.terminatingDef = "!_.GetObject().GetDeletionTimestamp().IsZero()" := by decide
+
 end KoordVerif.C05
